@@ -132,7 +132,7 @@ pub fn lnode_of(node: &Node, content: Option<&[u8]>) -> LNode {
         kind: kind.into(),
         sha: content.map(sha256_hex),
         size: content.map_or(0, |c| c.len() as u64),
-        mode: node.meta.mode,
+        mode: node.meta.mode.map(crate::source::from_go_mode),
         mtime: node.meta.mtime.map(|t| t.as_nanosecond()),
         target: node
             .is_symlink()
